@@ -99,12 +99,15 @@ func (q Keeper) WrkChainsFiltered(c context.Context, req *types.QueryWrkChainsFi
 		matchOwner, matchMoniker := true, true
 
 		if len(req.Owner) > 0 {
-			_, err := sdk.AccAddressFromBech32(req.Owner)
+			ownerAddr, err := sdk.AccAddressFromBech32(req.Owner)
 			if err != nil {
 				return false, err
 			}
 
-			matchOwner = wc.Owner == req.Owner
+			// the filter names an account: compare accounts, not the spelling of their addresses
+			// (bech32 also has an all-upper-case form)
+			storedOwner, accErr := sdk.AccAddressFromBech32(wc.Owner)
+			matchOwner = wc.Owner == req.Owner || (accErr == nil && storedOwner.Equals(ownerAddr))
 		}
 
 		if len(req.Moniker) > 0 {
